@@ -26,7 +26,7 @@ T == Trace[l]
 Refused(what) == Print(<<"@@REFUSED", l, what>>, TRUE)
 TWorld == IsEvent("World") /\ NewWorld([types |-> T.types, ents |-> T.ents, roots |-> T.roots, services |-> T.services])
           \* a World line also aborts a run that was cut short by a start failure
-TReq   == IsEvent("Req") /\ Request(T.op)
+TReq   == IsEvent("Req") /\ Request(T.op, T.invalid)
 TMono  == IsEvent("Mono") /\ phase = "running"
           /\ (IF T.data = Ref(W, op) THEN TRUE ELSE Print(<<"@@MONO-MISMATCH", l>>, TRUE))
           /\ UNCHANGED fvars
@@ -36,7 +36,7 @@ TPlan  == IsEvent("Plan") /\ (IF E("C02") => PlanOK(T) THEN TRUE ELSE Refused(""
 TQCall == IsEvent("QCall") /\ (IF QCallOK(T) THEN TRUE ELSE Refused("")) /\ QCallEff(T)
 TCall  == IsEvent("Call") /\ (IF CallOK(T) THEN TRUE ELSE Refused("")) /\ CallEff(T)
 TResp  == IsEvent("Resp") /\ (IF RespOK(T) THEN TRUE ELSE Refused(ToJson(Norm(Ref(W, op))))) /\ RespondEff(T)
-TFault == IsEvent("Fault") /\ phase = "running" /\ faults' = faults \cup {T.kind} /\ UNCHANGED <<W, op, phase, levels, calls, mroots>>
+TFault == IsEvent("Fault") /\ FaultSeen(T)
 
 TraceNext == TWorld \/ TReq \/ TMono \/ TPlan \/ TQCall \/ TCall \/ TResp \/ TFault
 TraceSpec == TraceInit /\ [][TraceNext]_tvars
